@@ -12,7 +12,7 @@ EXTENDS Syncer, Json, IOUtils, TLC
 CONSTANT Strict
 Rec == ndJsonDeserialize(IOEnv.TRACE)
 VARIABLE l
-tvars == <<stored, pruned, foreign, sampled, now, netHead, peers, phase, subj, ongoing, hsub, lastFetch, l>>
+tvars == <<stored, pruned, foreign, sampled, now, netHead, peers, phase, subj, ongoing, hsub, sawPeer, lastFetch, l>>
 Ev == Rec[l]
 
 Observed(st) ==
@@ -32,15 +32,15 @@ TStrict ==
     LET n == Ev.name IN
     \/ n = "reset"   /\ stored' = {} /\ pruned' = {} /\ foreign' = {} /\ sampled' = {} /\ now' = Ev.now /\ netHead' = 1
                      /\ peers' = 0 /\ phase' = "connecting" /\ subj' = 0 /\ ongoing' = <<>> /\ hsub' = FALSE
-                     /\ lastFetch' = NoFetch
+                     /\ sawPeer' = FALSE /\ lastFetch' = NoFetch
     \/ n = "prefill" /\ Adopt(Ev.st) /\ netHead' = Ev.netHead
-                     /\ UNCHANGED <<now, peers, phase, ongoing, hsub, lastFetch>>
+                     /\ UNCHANGED <<now, peers, phase, ongoing, hsub, sawPeer, lastFetch>>
     \/ n = "mark"    /\ MarkSampled(Ev.h) /\ Observed(Ev.st)
     \/ n = "prune"   /\ Prune(Ev.h) /\ Observed(Ev.st)
     \/ n = "connect" /\ Connect /\ Observed(Ev.st)
     \/ n = "disconnect" /\ Disconnect /\ Observed(Ev.st)
     \/ n = "newblock" /\ netHead' = Ev.netHead
-                      /\ UNCHANGED <<stored, pruned, foreign, sampled, now, peers, phase, subj, ongoing, hsub, lastFetch>>
+                      /\ UNCHANGED <<stored, pruned, foreign, sampled, now, peers, phase, subj, ongoing, hsub, sawPeer, lastFetch>>
     \/ n = "headsub" /\ Ev.h = netHead /\ HeaderSub /\ Observed(Ev.st)
     \/ n = "tryinit" /\ Ev.h = netHead /\ TryInit /\ Observed(Ev.st)
     \/ n = "fetch"   /\ FetchNext /\ ongoing' = <<Ev.lo, Ev.hi>> /\ Observed(Ev.st)
@@ -50,11 +50,11 @@ TStrict ==
                         \/ Ev.kind = "fail" /\ BatchFail
                      /\ Observed(Ev.st)
     \/ n = "quiescent" /\ (Ev.check_live = 1 => (phase = "connected" /\ WindowStored))
-                       /\ UNCHANGED <<stored, pruned, foreign, sampled, now, netHead, peers, phase, subj, ongoing, hsub, lastFetch>>
+                       /\ UNCHANGED <<stored, pruned, foreign, sampled, now, netHead, peers, phase, subj, ongoing, hsub, sawPeer, lastFetch>>
 
 TLoose ==
     LET n == Ev.name IN
-    /\ UNCHANGED <<peers, phase, ongoing, hsub>>
+    /\ UNCHANGED <<peers, phase, ongoing, hsub, sawPeer>>
     /\ \/ n = "reset"   /\ stored' = {} /\ pruned' = {} /\ foreign' = {} /\ sampled' = {} /\ now' = Ev.now /\ netHead' = 1
                         /\ subj' = 0 /\ lastFetch' = NoFetch
        \/ n = "prefill" /\ Adopt(Ev.st) /\ netHead' = Ev.netHead /\ UNCHANGED <<now, lastFetch>>
